@@ -11,6 +11,47 @@ SIMS = ["Gillespie_SIR", "Gillespie_SIS", "fast_SIR", "fast_SIS", "fast_nonMarko
         "discrete_SIR", "Gillespie_simple_contagion", "Gillespie_complex_contagion"]
 
 
+def generated_model(ctx, reqs, metas):
+    """the Lean code GENERATED from Simulation_Investigation.node_status / get_statuses / summary
+    (harness/pyinvest2lean.py -> Gen/InvestGen.lean), run by its own driver on the implementation's own node histories:
+    summary() of all nodes and of a node subset, and every node_status / get_statuses answer must coincide."""
+    import fcntl, subprocess, os, json, pyinvest2lean
+    lean = common.LEAN
+    os.makedirs(os.path.join(lean, ".audit"), exist_ok=True)
+    with open(os.path.join(lean, ".audit", "geninv.lock"), "w") as lock:
+        fcntl.flock(lock, fcntl.LOCK_EX)
+        try:
+            _, errors = pyinvest2lean.regenerate()
+        except Exception as e:
+            errors = {"translator": "crashed: %r" % e}
+        if errors:
+            ctx.disagreement("generated-invest:translation", dict(entry="Simulation_Investigation", errors=errors))
+            return
+        p = common.lake(["build", "driverinv"])
+    if p.returncode != 0:
+        ctx.disagreement("generated-invest:build", dict(entry="Simulation_Investigation", log="\n".join(
+            l for l in (p.stdout + p.stderr).splitlines() if "error" in l)[:1500]))
+        return
+    exe = os.path.join(lean, ".lake", "build", "bin", "driverinv")
+    data = "\n".join(json.dumps(dict(op="c10", hists=r["hists"], statuses=r["statuses"], queries=r["queries"]), separators=(",", ":")) for r in reqs) + "\n"
+    q = subprocess.run([exe], input=data, capture_output=True, text=True)
+    lines = q.stdout.splitlines()
+    if q.returncode != 0 or len(lines) != len(reqs):
+        raise RuntimeError("driverinv crashed: " + q.stderr[-1000:])
+    for i, (rep, full, plain, impl_ans, sub, sub_impl) in enumerate(metas):
+        g, gsub = json.loads(lines[2 * i]), json.loads(lines[2 * i + 1])
+        ctx.count("generated-model-runs")
+        d = []
+        if g.get("summary") != full["summary"]:
+            d.append("summary()")
+        if g.get("answers") != impl_ans:
+            d.append("node_status/get_statuses")
+        if gsub.get("summary") != sub_impl:
+            d.append("summary(nodelist)")
+        if d:
+            ctx.disagreement("generated-invest:" + ",".join(d), dict(rep, diffs=d, generated=dict(summary=g.get("summary"), answers=g.get("answers"))))
+
+
 def legal_moves(c):
     sim = c["sim"]
     if sim == "Gillespie_simple_contagion":
@@ -76,6 +117,7 @@ def run(ctx):
             reqs.append(dict(op="c10", legal=legal_moves(c), tmin=c["tmin"], hists=[full["history"][v] for v in sub], statuses=sts,
                              queries=[]))
             metas.append((rep, full, plain, impl_ans, sub, sub_impl))
+    generated_model(ctx, reqs, metas)
     resps = drv.batch(reqs)
     for i, (rep, full, plain, impl_ans, sub, sub_impl) in enumerate(metas):
         r, rsub = resps[2 * i], resps[2 * i + 1]
